@@ -42,17 +42,19 @@ theorem C05_hidden_never_matched (p : Pat) (l : Label) (h : l.isReg = false) : p
 /-! ### an open struct never rejects a field -/
 
 /-- If no closed conjunct reaches a node, every label is allowed there. -/
-theorem C05_open_never_rejects (e : Expr) (l : Label) (h : closed e = false) : allowedBy e l = true :=
-  Closed.allowedBy_of_open e l h
+theorem C05_open_never_rejects (e : Expr) (l : Label) (hs : shape e = .st)
+    (h : closed e = false) : allowedBy e l = true :=
+  Closed.allowedBy_of_open e l hs h
 
 /-! ### optional constraints on absent fields never make a struct fail -/
 
 /-- Adding an optional constraint `l?: v` (with ANY value `v`, even `_|_`) for a label that
-is absent from the data does not change the verdict. -/
+is absent from the result (not in the data, not a regular field of the schema) does not
+change the verdict. -/
 theorem C05_optional_absent (s : Expr) (d : Data) (l : Label) (v : Expr) (hd : d.WF = true)
-    (hs : shape s = .st) (hl : d.labels.contains l = false) :
+    (hs : shape s = .st) (hl : d.labels.contains l = false) (hm : hasDecl .member s l = false) :
     admits (.and s (.field l .optional v .nil)) d = admits s d :=
-  Closed.admits_and_optional s d l v hd hs hl
+  Closed.admits_and_optional s d l v hd hs hl hm
 
 /-! ### direct / through a definition / as a sole embedding -/
 
@@ -110,7 +112,8 @@ example : accepts exS (.cons la (.atom (.i 1)) .nil) = true := by decide
 -- hypotheses of C05_closed_never_gains are satisfiable: `b` is not allowed by `exS`
 example : allowedBy exS lb = false ∧ lb.isReg = true := by decide
 -- hypotheses of C05_open_never_rejects: an open literal with fields and a pattern
-example : closed (.field la .required (.sc .int) (.pat .any (.sc .str) .nil)) = false := by decide
+example : closed (.field la .required (.sc .int) (.pat .any (.sc .str) .nil)) = false ∧
+    shape (.field la .required (.sc .int) (.pat .any (.sc .str) .nil)) = .st := by decide
 -- embeddings widen: `{#S, c?: int}` allows `c` and `a`, not `b`
 example : (allowedBy (.emb exS (.field lc .optional (.sc .int) .nil)) lc,
            allowedBy (.emb exS (.field lc .optional (.sc .int) .nil)) la,
